@@ -63,6 +63,18 @@ CLAIMED.update({
             "It does not decide that accepted configurations process records correctly, nor panics inside third-party libraries.", "§4 C16"),
 })
 
+CLAIMED.update({
+    "C11": ("static exactly-once path enumeration, must-precede (close before read, copy before reset), sibling comparison of the two Chunker implementations, constant agreement of writer/reader suffix tables",
+            "Structure of the chunk maker on all paths: one write per stream into the chunk current after roll-over, flush resets, records counted exactly when written, compressor closed before the buffer is read, chunk data is a copy, "
+            "id/option/count come from the same intermediate chunk, the id suffix written equals the suffix matched. Well-formedness of the encoded bytes and the limits as numbers are not decided.", "§4 C11"),
+    "C12": ("static reset-exhaustiveness over the struct's fields (enumerated from types), use-after-release path rule, backward taint from long-lived sinks to transient-string sources with deep-copy sanitizers, who-may-write",
+            "Every LogRecord field is cleared on the recycle path or assigned by every producer; no use after the final release; transient strings reach long-lived maps/labels/constructors only through a deep copy; scratch buffers do not escape without a copy; "
+            "serialization and rewriting never store into a record. sync.Pool behaviour and sampling state are not decided.", "§4 C12"),
+    "C15": ("static control-flow shape rules over the transform chain and container transforms; exactly-once enumeration of the sampling bookkeeping",
+            "NARROW claim: only the composition and bookkeeping clauses (first DROP wins; containers return their nested chain's result; non-filtering transforms always PASS; truncate's cut uses the UTF-8 cleaner under the documented guard; drop's counters once per record). "
+            "The per-value results of transforms and matchers against a reference interpreter are value-level and are not decided by this family.", "§4 C15"),
+})
+
 NOT_YET = {}
 
 NOT_APPLICABLE = {
